@@ -217,6 +217,18 @@ func main() {
 		cmdStoreGen(os.Args[2:])
 	case "store-rand":
 		cmdStoreRand(os.Args[2:])
+	case "syn-trees":
+		cmdSynTrees(os.Args[2:])
+	case "syn-check":
+		cmdSynCheck(os.Args[2:])
+	case "front-replay":
+		cmdFrontReplay(os.Args[2:])
+	case "portion-check":
+		cmdPortionCheck(os.Args[2:])
+	case "rt-one":
+		cmdRtOne(os.Args[2:])
+	case "rt-check":
+		cmdRtCheck(os.Args[2:])
 	case "conc":
 		cmdConc(os.Args[2:])
 	case "store-replay":
